@@ -11,7 +11,7 @@ def main(run):
                 'histories (HistGen) and seeded random trees of up to 40 nodes go through the same judge; non-trivial = has an internal '
                 'node; distinct = distinct model trees')
     bounds = [('A', 4, 2, 2), ('B1', 4, 2, 2), ('B2', 3, 2, 2), ('K', 4, 3, 3)] if quick else \
-             [('A', 5, 2, 2), ('B1', 4, 3, 3), ('B2', 4, 2, 2), ('K', 5, 4, 4)]
+             [('A', 5, 2, 2), ('B1', 4, 3, 3), ('B2', 4, 2, 2), ('K', 4, 3, 3), ('KO', 4, 3, 3)]
     rng = random.Random(run.seed)
     trees, _ = F.model_phase(run, bounds, ['InvC01'])
     trees = F.cap(trees, 6000 if quick else 200000, rng, run)
